@@ -9,7 +9,7 @@ size_t g_el_k; unsigned char g_el_byte;
 /* with env/memops_witness.h only the octet at relative position g_mem_k (and 0..3) survives a copy: the payload copy
  * must preserve relative position a, the final move relative position b */
 #ifdef EL_MEM_WITNESS
-#define EL_MEM_WITNESS_AT(a, b, opt) (((a) < 4 || (a) == g_mem_k) && (((opt) & KSI_TLV_OPT_NO_MOVE) || (b) < 4 || (b) == g_mem_k))
+#define EL_MEM_WITNESS_AT(a, b, opt) (((a) < 4 || (a) == g_mem_k || (a) == g_mem_k2) && (((opt) & KSI_TLV_OPT_NO_MOVE) || (b) < 4 || (b) == g_mem_k || (b) == g_mem_k2))
 #else
 #define EL_MEM_WITNESS_AT(a, b, opt) 1
 #endif
@@ -43,6 +43,7 @@ __CPROVER_ensures(IMPLIES(buf == NULL || (EL_TOT(element, opt) <= buf_size &&
 		(EL_CHILD(element) || !EL_LEAF(element) || buf_size > EL_DAT(element))), __CPROVER_return_value == KSI_OK))
 /* C6 content longer than the 16-bit length field is refused                               (expected to fail: never checked) */
 __CPROVER_ensures(IMPLIES(!EL_CHILD(element) && __CPROVER_return_value == KSI_OK && EL_HDR(opt), EL_DAT(element) <= SPEC_TLV_MAX_LEN))
+#ifndef EL_NESTED_LIGHT   /* header and leaf-payload octets: jobs C09.elleaf_* (plain mode); the contract-mode jobs for nested elements carry sizes and tiling only */
 /* C7 header octets = reference encoding of (tag, flags, payload length), short form exactly when allowed */
 __CPROVER_ensures(IMPLIES(!EL_CHILD(element) && __CPROVER_return_value == KSI_OK && buf != NULL && EL_HDR(opt) && EL_TOT(element, opt) <= buf_size,
 		buf[EL_POS(element, opt, buf_size)] == spec_tlv_enc_hdr_byte(element->ftlv.tag, element->ftlv.is_nc, element->ftlv.is_fwd, EL_DAT(element), 0) &&
@@ -54,6 +55,7 @@ __CPROVER_ensures(IMPLIES(!EL_CHILD(element) && __CPROVER_return_value == KSI_OK
 __CPROVER_ensures(IMPLIES(!EL_CHILD(element) && EL_LEAF(element) && __CPROVER_return_value == KSI_OK && buf != NULL && g_el_k < EL_DAT(element) && EL_TOT(element, opt) <= buf_size &&
 		EL_MEM_WITNESS_AT(g_el_k, (EL_TOT(element, opt) - EL_DAT(element)) + g_el_k, opt),
 		buf[EL_POS(element, opt, buf_size) + (EL_TOT(element, opt) - EL_DAT(element)) + g_el_k] == element->ptr[element->ftlv.hdr_len + g_el_k]))
+#endif
 /* C9 nested: every child serialized once, the children tile the payload (witness child lies between its neighbours, undisturbed) */
 __CPROVER_ensures(IMPLIES(!EL_CHILD(element) && !EL_LEAF(element) && __CPROVER_return_value == KSI_OK, g_el_calls == g_el_len))
 __CPROVER_ensures(IMPLIES(!EL_CHILD(element) && !EL_LEAF(element) && __CPROVER_return_value == KSI_OK && buf != NULL && g_el_w < g_el_len && g_el_k < g_el_w_size && EL_TOT(element, opt) <= buf_size &&
